@@ -33,8 +33,9 @@ def comps(p):
 
 def nested_paths(cfg, ideal=True):
     """the declared nested paths: every ancestor of a flattened declared path (a dot-less declared path is its
-    own parent).  ideal=False: the parents only (what the code recognises, see F8)"""
-    return set(E.containers(E.declared_paths(cfg.get("nested_fields"), True), ideal))
+    own parent); the empty path that an empty specification flattens to is not a nested field.
+    ideal=False: the parents only (what the code recognises, see F8)"""
+    return set(E.containers(E.declared_paths(cfg.get("nested_fields"), True), ideal)) - {""}
 
 
 def level_of(np, f):
@@ -482,7 +483,7 @@ def correspond(model_ok, res):
     from luqum.parser import parser
     r = lib.rng("C05")
     rdoc = lib.rng("C05-docs")
-    n = 60 if lib.tier() == "quick" else 600
+    n = 120 if lib.tier() == "quick" else 1200
     sessions = witnesses(T, parser) + E.builder_sessions(r, T, n, odd_share=0.2)
     stats = {"judged": 0, "translated": 0, "refused": 0, "documents": 0, "known": {}, "unjudged": 0}
     sem_cases, sem_payloads = [], []
@@ -557,11 +558,14 @@ SPEC = {
     "targets": ["props/C05.vo"],
     "model_targets": ["model/EsBuild.vo", "model/EsSpec.vo", "model/EsSem.vo"],
     "module": "C05",
-    "theorems": ["C05_refuted"],
+    "theorems": ["C05_reject", "C05_boolean_partial", "C05_refuted", "C05_refuted_F8", "C05_refuted_F17"],
     "correspond": correspond,
     "statement": "on supported trees and well-formed configurations the builder raises a documented inconsistency "
                  "exception or returns a JSON that matches (reference semantics of bool / nested / leaf clauses, "
-                 "EsSem.es_eval) exactly the documents the tree denotes (EsSem.den)",
+                 "EsSem.es_eval) exactly the documents the tree denotes (EsSem.den).  Full statement refuted "
+                 "(F6, F8, F17); the reject clause is proved in full; the equivalence is proved for configurations "
+                 "without nested fields and trees without the F6 shape (C05_boolean_partial); nested meaning is "
+                 "checked on the implementation by the oracle only",
     "trusted_base": [
         "Coq 8.16.1 kernel (vm_compute for witnesses and correspondence; no native_compute)",
         "no axioms (Print Assumptions: closed under the global context)",
@@ -571,5 +575,23 @@ SPEC = {
         "correspondence on every run; the Python mirror of EsSem.v in harness/c05.py is compared with EsSem.v "
         "on sampled documents on every run",
     ],
-    "assumptions": [],
+    "assumptions": [
+        "supported trees: words, phrases, ranges (bounds: word / phrase, possibly under -), fuzzy, proximity, "
+        "boost, groups, fields, AND / OR / implicit / boolean operations with >= 2 operands, NOT, +, -; the oracle "
+        "judges grammar shapes only (fuzzy on a word, proximity on a phrase)",
+        "well-formed configurations (match_type / type options are str) that do not rename a leaf query to "
+        "'bool' or 'nested' (EsSem.sem_config)",
+        "Elasticsearch semantics as written in EsSem.v: nested objects are hidden documents reached only through "
+        "a nested query (multi-level paths resolved directly); bool = all must/filter, no must_not, and one "
+        "should when there is no must/filter (minimum_should_match default); a leaf clause on a field of "
+        "another nested level matches nothing; zero_terms_query, boost and _name do not change which documents "
+        "match; a multi_match clause (user-supplied fields) addresses the level it is evaluated at",
+        "the atom of a term is the (normalised) leaf clause the builder's leaf constructors give for the term "
+        "alone in its field context: that it is the right clause is property C06, not C05",
+        "declared nested paths = every non-empty ancestor of a flattened declared nested path (a dot-less "
+        "declared path is its own parent), as in C07",
+        "BoolOperation denotes the Lucene boolean query with -x / NOT x read as the complement (a purely "
+        "negative BoolOperation matches the complement, as the property text says, not nothing as in Lucene)",
+        "default_operator values other than SHOULD act as MUST (as in the code)",
+    ],
 }
